@@ -2,5 +2,7 @@ SPECIFICATION Spec
 CONSTANTS
   Reqs = {1, 2, 3}
   MaxResends = 2
-INVARIANTS Conserved NeverAhead
+  MaxRefresh = 2
+  HookBeforeQuitCheck = TRUE
+INVARIANTS Conserved NeverAhead StoppedDrains
 CHECK_DEADLOCK FALSE
